@@ -288,3 +288,23 @@ def own_det_at(m, cell, Xexpr):
         return d
     sub = z3.substitute(d.a, *[(X[j].a, tosym(Xexpr[j]).a) for j in range(dim)])
     return Sym(z3.simplify(sub))
+
+
+def make_curved(h, name, cls, var='q'):
+    """Second-order mesh of class `cls` over topology `name` whose vertices AND higher-order nodes are symbolic (nominal: the
+    straight-sided positions plus a dyadic bump of up to 1/32, so that the nominal cells are genuinely curved)."""
+    import skfem as S
+    from dataclasses import replace
+    m1 = make_mesh(h, name)
+    C = getattr(S, cls)
+    M0 = C.from_mesh(m1)
+    nv = m1.p.shape[1]
+    _, pn, tn = topo(name)
+    Mf = C.from_mesh(getattr(S, type(m1).__name__)(pn, tn))
+    nomv = np.asarray(Mf.doflocs, dtype=float)[:, nv:]
+    nomv = nomv + ((np.arange(nomv.size).reshape(nomv.shape) * 7 % 5) - 2) / 64.0
+    q = h.sym(var, nomv.shape, nominal=nomv)
+    P = np.empty(M0.doflocs.shape, dtype=object if h.sym_mode else float)
+    P[:, :nv] = M0.doflocs[:, :nv]
+    P[:, nv:] = q
+    return replace(M0, doflocs=P)
